@@ -83,6 +83,17 @@ func (u *C11CtxU) UnmarshalJSON(ctx context.Context, b []byte) error {
 	return nil
 }
 
+type C11EmbIn struct {
+	X, Y int
+	Q    string
+}
+type C11Emb struct {
+	C11EmbIn
+	A  int
+	N  int
+	In C11EmbIn
+}
+
 type C11Plain struct {
 	A int    `json:"a"`
 	B string `json:"b"`
@@ -157,7 +168,13 @@ func c11NewHandles(decDocs []string, decFrom int) *c11Handles {
 	q1, _ := json.BuildFieldQuery("a", "b")
 	q2, _ := json.BuildFieldQuery("X", json.BuildSubFieldQuery("M").Fields("k"), "Q")
 	q3, _ := json.BuildFieldQuery("N")
-	h.queries = []*json.FieldQuery{q1, q2, q3}
+	q4, _ := json.BuildFieldQuery("X")
+	q5, _ := json.BuildFieldQuery("Y", "A")
+	q6, _ := json.BuildFieldQuery("X", "Y", "A")
+	q7, _ := json.BuildFieldQuery("N", json.BuildSubFieldQuery("In").Fields("Q"))
+	q8, _ := json.BuildFieldQuery("A", "In")
+	q9, _ := json.BuildFieldQuery(json.BuildSubFieldQuery("In").Fields("X", "Y"))
+	h.queries = []*json.FieldQuery{q1, q2, q3, q4, q5, q6, q7, q8, q9}
 	h.enc = json.NewEncoder(h.encBuf)
 	h.dec = json.NewDecoder(&chunkReader{data: []byte(strings.Join(decDocs[decFrom:], " ")), size: 7})
 	return h
@@ -428,6 +445,23 @@ func c11Pool(rng *rand.Rand) (calls []c11Call, decDocs []string) {
 				v := d.mk()
 				err, pan := safeDo(func() error { return json.UnmarshalNoEscape([]byte(doc), v) })
 				return fmt.Sprintf("%s err=%s panic=%s", c11View(v), c11Err(err), pan)
+			})
+		}
+	}
+	// directed: different field queries, one after the other, on one type with an embedded struct (what
+	// one query selects must not shape the program another query gets)
+	for qi := 3; qi < 9; qi++ {
+		qi := qi
+		for vi, v := range []interface{}{
+			C11Emb{C11EmbIn: C11EmbIn{X: 1, Y: 2, Q: "q"}, A: 3, N: 4, In: C11EmbIn{X: 5, Y: 6, Q: "r"}},
+			&C11Emb{C11EmbIn: C11EmbIn{X: 7}, A: 8},
+			[]C11Emb{{A: 1}, {C11EmbIn: C11EmbIn{Y: 9}, N: 2}},
+		} {
+			v := v
+			add(fmt.Sprintf("MarshalContext+FieldQuery#%d embedded value %d", qi, vi), func(h *c11Handles) string {
+				return c11Out(safeMarshal(func() ([]byte, error) {
+					return json.MarshalContext(json.SetFieldQueryToContext(c11Ctx("fq"), h.queries[qi]), v)
+				}))
 			})
 		}
 	}
